@@ -149,7 +149,7 @@ func runHistory(rec *vr.Rec, c hcase) {
 		if o == "ok" && len(outs) > 1 && rnd.Intn(3) != 0 {
 			o = outs[1+rnd.Intn(len(outs)-1)]
 		}
-		x := wl.Exchange{Kind: k, Outcome: o, ID: int(c.Seed%1000)*1000 + i, Size: []int{65, 128, 300, 700}[rnd.Intn(4)]}
+		x := wl.Exchange{Kind: k, Outcome: o, ID: int(c.Seed%1000)*1000 + i, Size: []int{65, 128, 300, 700}[rnd.Intn(4)], NoDeadline: i%3 == 2}
 		wg.Add(1)
 		sem <- struct{}{}
 		r := rand.New(rand.NewSource(rnd.Int63()))
